@@ -35,7 +35,7 @@ OP_DIRS = [{"dir": d, "sync": True} for d in ("pkg/hook", "pkg/hook/controller",
 OP_INSTR = {"dirs": OP_DIRS, "files": KEM_INSTR + [
     {"path": "pkg/executor/executor.go", "calls": {"e.cmd.Run": "@zzCmdRun", "e.cmd.Output": "@zzCmdOutput"}},
     {"path": "pkg/shell-operator/operator.go", "time": True, "conc": True,
-     "calls": {"op.APIServer.Start": "@zzNoopAPIStart", "op.runMetrics": "@zzNoopRunMetrics", "op.ScheduleManager.Start": "@zzNoopSchedStart",
+     "calls": {"?context.WithTimeout": "time.WithTimeout", "?context.WithDeadline": "time.WithDeadline", "op.APIServer.Start": "@zzNoopAPIStart", "op.runMetrics": "@zzNoopRunMetrics", "op.ScheduleManager.Start": "@zzNoopSchedStart",
                "op.AdmissionWebhookManager.Start": "@zzNoopAdmStart", "op.ConversionWebhookManager.Start": "@zzNoopConvStart"}},
     {"path": "pkg/shell-operator/manager_events_handler.go", "conc": True},
     {"path": "pkg/task/queue/task_queue.go", "sync": True, "time": True, "conc": True, "touch": ["started", "q.Status"], "seams": {"TaskQueue.WithHandler": "zzSeamWithHandler"}},
